@@ -183,6 +183,11 @@ fn history(c: &Cluster, node: usize, key: usize) -> Result<Vec<String>, String> 
 /// rare variant of the gaps repaired by 8d2c77b and 8d39375). Recognised by evidence and by rarity: the disputed content
 /// is found in a node's Raft log, and the same schedule simply run again does not fail again (a systematic defect - a
 /// follower that drops entries of a batch, an apply path that skips a request kind - fails again and is reported).
+/// open finding (DESIGN.md 8.9): after kill -9 of the leader in the middle of a burst of writes and its restart, the restarted
+/// node ends up with entries appended AND applied that the current leader does not have (last_applied beyond the leader's
+/// last log index); it never gives them up, so the cluster never quiesces. Recognised by exactly that evidence.
+pub const KNOWN_APPLIED_BEYOND_LEADER: &str = "C06/restarted-node-applied-entries-the-current-leader-does-not-have";
+
 pub const KNOWN_APPLY_GAP: &str = "C06/committed-entry-in-the-raft-logs-not-applied-by-one-node-rare";
 
 pub fn run_case(case: &Case, work: &Path, seed: u64) -> CaseReport {
@@ -590,6 +595,14 @@ fn run_case_inner(case: &Case, c: &mut Cluster) -> CaseReport {
     // occasionally reports NonVoter although the stored membership lists it (DESIGN.md 8.4, observations): it
     // still receives and applies every entry, and the statement speaks about served contents only
     if let Err(e) = c.wait_quiescent_nudged_opt(90, (0..3).find(|i| !frozen_as_leader.contains(i)).unwrap_or(0), true) {
+        // open finding (DESIGN 8.9): a restarted former leader has applied entries the current leader does not have
+        if is_open("C06", KNOWN_APPLIED_BEYOND_LEADER) && std::env::var("RNV_C06_STRICT").is_err() {
+            if let Some(d) = c.node_applied_beyond_leader() {
+                labels.insert("known_node_applied_entries_the_leader_does_not_have".into());
+                eprintln!("C06 known shape: {} ({})", d, e);
+                return CaseReport { labels: labels.into_iter().collect(), nontrivial: true, verdict: Verdict::Known(KNOWN_APPLIED_BEYOND_LEADER.into()) };
+            }
+        }
         return CaseReport::violation(
             labels.into_iter().collect(),
             true,
